@@ -5,6 +5,7 @@ from vsa import front
 from vsa.facts import Facts, unwrap, show, walk, lit_value
 from vsa.front import AnalysisBroken
 from vsa.cfg import CFG
+from vsa.alg import Fold, S
 
 LEVEL = "other"
 D = "votca::xtp::DavidsonSolver::"
@@ -138,13 +139,48 @@ def run(rep, tier):
     ok = len(rets) == 1 and nows(show(rets[0]["value"])) == "proj.root_converged.head(neigen).all()"
     rep.check(ok, "R9.3", "all-roots", "converged iff all requested roots are converged", "checkConvergence returns %s (required root_converged.head(neigen).all())" % (
         show(rets[0]["value"]) if rets else "?"), cc.loc(), sample=True)
-    zero = [n for n in snc.walk() if n.get("k") == "if" and "root_converged" in show(n["cond"])]
-    ok = len(zero) == 1 and nows(show(zero[0]["cond"])) == "!root_converged[i]"
+    from vsa.cases import executes
+    fz = Fold(snc, record_calls=r"::setZero$").run()
+    zev = [e for e in fz.events if (e["kind"] == "store" and e["target"].replace(" ", "").startswith("eigenvalues_(") and e["value"] == 0)
+           or (e["kind"] == "call" and "eigenvectors_" in str(e["obj"]) and "col(" in str(e["obj"]))]
+    kinds = sorted({e["kind"] for e in zev})
+    ok = kinds == ["call", "store"]
     if ok:
-        th = [nows(show(x)) for x in walk(zero[0]["then"]) if x.get("k") in ("opcall", "mcall", "assign")]
-        ok = any(t.startswith("(eigenvalues_(i)=0") or t == "(eigenvalues_(i)=0)" for t in th) and any("eigenvectors_.col(i).setZero()" in t for t in th)
-        loops = [a for a in snc.ancestors(zero[0]) if a.get("k") == "for"]
-        ok = ok and len(loops) == 1 and nows(show(loops[0]["cond"])) == "(i<neigen)"
+        def rc_oracle(leaf):
+            s_ = str(leaf)
+            if not isinstance(leaf, tuple) and "root_converged" in s_ and s_.startswith("at("):
+                return ("RC", True)
+            return None
+        idxs = set()
+        for e in zev:
+            for rc in (True, False):
+                x_ = executes(e, None, {"RC": rc}, rc_oracle, getattr(fz, "conds", {}))
+                ok = ok and x_ is not None and x_ == (not rc)
+            if e["kind"] == "store":
+                idxs.add(str(e["idx"][0]) if e.get("idx") else "?")
+            else:
+                m_ = re.search(r"col\(eigenvectors_, ([^)]*)\)", str(e["obj"]))
+                idxs.add(m_.group(1) if m_ else "?")
+            # the flag tested is the one of the same root
+            for c_, _pol, _n in e["guards"]:
+                if "root_converged" in str(c_) and not (isinstance(c_, tuple) and c_ and c_[0] in ("loop", "each")):
+                    m2 = re.search(r"at\(root_converged, ([^)]*)\)", str(c_))
+                    idxs.add(m2.group(1) if m2 else "?")
+        for gl in [g_ for e in zev for g_ in e.get("not", [])]:
+            for c_, _pol, _n in gl:
+                m2 = re.search(r"at\(root_converged, ([^)]*)\)", str(c_))
+                if m2:
+                    idxs.add(m2.group(1))
+        ok = ok and len(idxs) == 1 and re.match(r"^\w+@L\d+$", list(idxs)[0]) is not None
+        loops = [a_ for a_ in snc.ancestors(zev[0]["node"]) if a_.get("k") == "for"]
+        np_ = snc.j["params"][-1]["decl"] if snc.j.get("params") else None
+        okl = False
+        if len(loops) == 1 and loops[0].get("cond") is not None and loops[0].get("init") is not None:
+            c_ = unwrap(loops[0]["cond"])
+            ini = loops[0]["init"]
+            okl = c_.get("k") == "binop" and c_["op"] in ("<", "!=") and any(x.get("k") == "ref" and x.get("dk") == "param" and "neigen" in (x.get("name") or "") for x in walk(c_["rhs"])) \
+                and ini.get("k") == "decl" and lit_value(ini["decls"][0].get("init")) == 0
+        ok = ok and okl
     rep.check(ok, "R9.3", "zero-unconverged", "unconverged roots are zeroed, converged ones kept", "storeNotConvergedData does not zero exactly the roots with !root_converged[i]", snc.loc(), sample=True)
     tols = F.one(D + "set_tolerance")
     lits = {}
